@@ -15,14 +15,18 @@
                                consistent with C (none, one, several, one at the tip), any reply cap >= 1, enough fuel
                                (|C| - k + 1 deliveries): quiescent, longest chain = C, tip = last C; every step sends exactly
                                one request (never filtered), locator head = the tip, stop = next checkpoint / zero.
+     C06_catchup_linear_exp    the same for the experimental engine and its single outbound peer (the step that reaches the
+                               peer's height sends sendheaders instead of a further request; no duplicate filter exists there).
      C06_prefix_store_good     genesis + first k headers of C is such a store.
+     C06_fork_one_reply        after any reply the tip carries at least the work of every connected stored header (a branch that
+                               overtakes within one reply is adopted); C06_stops_when_no_longest: the stated caveat.
      C06_multi_partial         safety half for ALL schedules / peers / choices (see SyncMultiProofs); convergence for
                                several peers, stalls and disconnects is NOT proved.
    REFUTED (vm_compute witnesses on the faithful model; the real code agrees on the same scenarios, corpus/C06):
      C06_disable_checkpoints_refuted, C06_single_peer_announce_refuted, C06_lagging_sync_peer_refuted. *)
 From Coq Require Import ZArith NArith List Bool.
 From BHS Require Import Work Store Chain ChainSpec ChainAdd ChainMain SyncNode SyncDefault SyncExp SyncSys SyncSpec
-     SyncC07Proofs SyncC06Proofs.
+     SyncC07Proofs SyncC06Proofs SyncC06ExpProofs SyncMultiProofs.
 Import ListNotations.
 Open Scope Z_scope.
 
@@ -38,6 +42,58 @@ Theorem C06_catchup_linear : forall cfg gid C p cap res k s hints fuel,
     (exists ev es st, t1 = [(ev, es, st)] /\ entry_ok p (EHeaders p [], es, st) /\ es <> []) /\
     Forall (entry_ok p) t2.
 Proof. exact catchup_linear. Qed.
+
+
+Theorem C06_catchup_linear_exp : forall cfg gid C p cap res k s fuel,
+  good_chain (x_forb cfg) gid C -> cps_ok gid C (x_cps cfg) -> sorted (x_cps cfg) ->
+  (1 <= cap)%nat -> (k <= length C)%nat -> Good gid C k s -> (length C - k + 1 <= fuel)%nat ->
+  exists z1 t1 z2 t2,
+    z_cmd (z_init cfg gid p s (node0 C cap res)) (CConnect p) = (z1, t1) /\
+    z_cmd z1 (CRun fuel) = (z2, t2) /\
+    xquiet z2 = true /\
+    (exists tip t, Inv2 (e_store (z_eng z2)) tip /\ ids (chain (e_store (z_eng z2)) tip) = rev (cids gid C) /\
+                   tipB (e_store (z_eng z2)) = Some t /\ id t = last (cids gid C) gid) /\
+    (exists es st, t1 = [(None, es, st)] /\ xentry_ok C p (Some (XHeaders []), es, st) /\ es <> []) /\
+    Forall (xentry_ok C p) t2.
+Proof. exact catchup_linear_exp. Qed.
+
+(* ---- several peers, stalls, disconnects, any schedule and any sync-peer choices: SAFETY only ---- *)
+(* (S1) whatever is stored was pre-loaded or delivered in some headers message (i.e. is on some peer's offered tree) *)
+Theorem C06_multi_stored_was_offered_partial : forall cfg evs st r, In r (d_store (d_run cfg st evs)) ->
+  In (id r) (ids (d_store st)) \/ In (id r) (delivered evs).
+Proof. exact stored_was_offered. Qed.
+
+(* (S2) the store stays Valid and the cumulative work of the reported tip never decreases *)
+Theorem C06_multi_tip_work_monotone_partial : forall cfg evs st,
+  Valid (d_store st) -> Forall (fun x => pos_event (snd x)) evs ->
+  Valid (d_store (d_run cfg st evs)) /\ tip_cum (d_store st) <= tip_cum (d_store (d_run cfg st evs)).
+Proof. exact d_run_tip_mono. Qed.
+
+(* (S3) the done event of the sync peer: it is replaced; a new sync peer is chosen whenever a candidate not behind the tip is known *)
+Theorem C06_multi_done_selects_new_sync_peer_partial : forall cfg hint st p c,
+  aget p (d_states st) = Some c -> d_sync st = Some p ->
+  let st' := fst (on_done cfg hint st p) in
+  d_sync st' <> Some p /\
+  (forall q, q <> p -> aget q (d_states st) = Some true -> tip_height (d_store st) <= last_of st q -> d_sync st' <> None).
+Proof. exact done_selects_new_sync_peer. Qed.
+
+
+(* ---- competing branches ---- *)
+(* after a reply the reported tip carries at least the work of every connected header stored - so a competing branch is
+   adopted as soon as ONE reply brings a header that overtakes the tip (composition with C01: Valid stores) *)
+Theorem C06_fork_one_reply : forall f next hs s rc fin s' rc' fin', Valid s -> pos_hdrs hs ->
+  hloop f next s rc fin hs = HDone s' rc' fin' ->
+  Valid s' /\ tip_cum s <= tip_cum s' /\ forall r, In r s' -> orph r = false -> cum r <= tip_cum s'.
+Proof. exact fork_one_reply. Qed.
+
+(* the statement's caveat: a reply without any longest-chain header ends the conversation *)
+Theorem C06_stops_when_no_longest : forall cfg st p c hs s' rc,
+  aget p (d_states st) = Some c -> d_hfm st = true ->
+  hloop (c_forb cfg) (d_next st) (d_store st) false None hs = HDone s' rc None ->
+  snd (on_headers cfg st p hs) = [] /\ d_next (fst (on_headers cfg st p hs)) = d_next st.
+Proof. exact stops_when_no_longest. Qed.
+
+Definition C06_multi_partial := (C06_multi_stored_was_offered_partial, C06_multi_tip_work_monotone_partial, C06_multi_done_selects_new_sync_peer_partial).
 
 Theorem C06_prefix_store_good : forall f gid gpl C, good_chain f gid C -> forall k, (k <= length C)%nat ->
   Good gid C k (run_from f (init gid gpl) (firstn k C)).
@@ -74,6 +130,12 @@ Theorem C06_lagging_sync_peer_refuted :
 Proof. exact lagging_sync_peer_refuted. Qed.
 
 Print Assumptions C06_catchup_linear.
+Print Assumptions C06_catchup_linear_exp.
+Print Assumptions C06_multi_stored_was_offered_partial.
+Print Assumptions C06_multi_tip_work_monotone_partial.
+Print Assumptions C06_multi_done_selects_new_sync_peer_partial.
+Print Assumptions C06_fork_one_reply.
+Print Assumptions C06_stops_when_no_longest.
 Print Assumptions C06_prefix_store_good.
 Print Assumptions C06_catchup_example.
 Print Assumptions C06_disable_checkpoints_refuted.
